@@ -32,6 +32,25 @@ type Case struct {
 	Schedule []int    `json:"schedule"`
 	// Batch: two writes parked at the same time are applied by ONE Update call of the metadata state machine (proposals committed together)
 	Batch bool `json:"batch,omitempty"`
+	// Replicas: every node reads its OWN replica of the metadata state machine (stale reads, as kv.RaftStore does) and is answered by it;
+	// the schedule also decides when a lagging replica applies the next log entry or is caught up by a snapshot (gate.World.Replicas)
+	Replicas bool `json:"replicas,omitempty"`
+}
+
+func genCaseReplicas(t *rapid.T) Case {
+	nodes := rapid.IntRange(2, 3).Draw(t, "nodes")
+	c := Case{Replicas: true}
+	for n := 0; n < nodes; n++ {
+		var p []Call
+		k := rapid.IntRange(1, 4).Draw(t, "calls")
+		for i := 0; i < k; i++ {
+			p = append(p, Call{Kind: rapid.SampledFrom([]string{"lease-long", "lease-long", "lease-expired", "lease-expired", "return", "return"}).Draw(t, "kind")})
+		}
+		c.Programs = append(c.Programs, p)
+	}
+	c.Schedule = rapid.SliceOfN(rapid.IntRange(0, 8), 0, 60).Draw(t, "schedule")
+	c.Batch = rapid.Bool().Draw(t, "batch")
+	return c
 }
 
 func genCase(t *rapid.T) Case {
@@ -83,8 +102,15 @@ func execute(c Case) (steps int, overlapped bool, f *vt.Failure) {
 	return
 }
 
+// lastWorld: the world of the most recent execution (statistics only).
+var lastWorld *gate.World
+
 func executeB(c Case) (steps int, overlapped bool, branching []int, f *vt.Failure) {
 	w := gate.NewWorld()
+	if c.Replicas {
+		w = gate.NewReplicatedWorld(len(c.Programs))
+	}
+	lastWorld = w
 	w.Batch = c.Batch
 	current := map[int]*callRec{}
 	believes := map[int]bool{} // node -> believes to hold an unexpired lease
@@ -245,9 +271,32 @@ func run(c Case, o *vt.Obs) *vt.Failure {
 	return nil
 }
 
-func TestC15(t *testing.T)        { vt.Check(t, prop, genCase, run) }
-func TestC15Replay(t *testing.T)  { vt.Replay(t, prop, run) }
-func TestC15Regress(t *testing.T) { vt.Regress(t, prop, "testdata", run) }
+func runReplicas(c Case, o *vt.Obs) *vt.Failure {
+	steps, overlapped, f := execute(c)
+	if f != nil {
+		return f
+	}
+	w := lastWorld
+	if overlapped {
+		o.Label("overlapping-read-then-write-windows")
+	}
+	if w.LagReads > 0 {
+		o.Label("decision-taken-on-a-stale-read-of-a-lagging-replica")
+	}
+	if w.SnapInstall > 0 {
+		o.Label("lagging-replica-caught-up-by-snapshot")
+	}
+	o.LabelN("store-operations", steps)
+	o.NonTrivial = w.LagReads > 0 && (overlapped || w.SnapInstall > 0)
+	o.Describe = func() string { return fmt.Sprintf("%+v", c) }
+	return nil
+}
+
+func TestC15(t *testing.T)               { vt.Check(t, prop, genCase, run) }
+func TestC15Replicas(t *testing.T)       { vt.Check(t, prop, genCaseReplicas, runReplicas) }
+func TestC15ReplicasReplay(t *testing.T) { vt.Replay(t, prop, runReplicas) }
+func TestC15Replay(t *testing.T)         { vt.Replay(t, prop, run) }
+func TestC15Regress(t *testing.T)        { vt.Regress(t, prop, "testdata", run) }
 
 // TestC15Exhaustive enumerates ALL interleavings (at store-operation granularity) of every pair of
 // programs with up to maxCalls calls for 2 nodes (thorough tier; quick uses a smaller bound).
